@@ -61,6 +61,48 @@ def conformance_listing_order():
         shutil.rmtree(d, ignore_errors=True)
 
 
+def conformance_open_modes():
+    """trusted-base check: the open modes / node management of the store stub against real PyTables - the same script is run
+    on both and must give the same observations"""
+    import tables
+
+    def script(open_file, fn, mkarr):
+        obs = []
+        with open_file(fn, 'w') as h:
+            h.create_carray('/', 'arr_0', obj=None, atom=tables.Atom.from_dtype(np.dtype('int64')), shape=(2,))
+            h.create_carray('/', 'arr_1', obj=None, atom=tables.Atom.from_dtype(np.dtype('int64')), shape=(1,))
+        with open_file(fn, 'a') as h:                      # append keeps the nodes
+            obs.append(sorted(k.name for k in h.list_nodes('/')))
+            obs.append(('arr_0' in h.root, 'arr_7' in h.root))
+            try:
+                h.create_carray('/', 'arr_1', obj=None, atom=tables.Atom.from_dtype(np.dtype('int64')), shape=(1,))
+                obs.append('created twice')
+            except tables.NodeError:
+                obs.append('NodeError')
+            h.remove_node(h.root, 'arr_1')
+            h.create_carray('/', 'arr_2', obj=None, atom=tables.Atom.from_dtype(np.dtype('int64')), shape=(3,))
+            obs.append(sorted(k.name for k in h.list_nodes('/')))
+        with open_file(fn, 'w') as h:                      # write truncates
+            obs.append(sorted(k.name for k in h.list_nodes('/')))
+        with open_file(fn + '.new', 'a') as h:             # append creates a missing file
+            obs.append(sorted(k.name for k in h.list_nodes('/')))
+        try:
+            open_file(fn + '.missing', 'r')
+            obs.append('opened a missing file')
+        except (IOError, OSError):
+            obs.append('IOError')
+        return obs
+    d = tempfile.mkdtemp(prefix='c15_', dir='/dev/shm' if os.path.isdir('/dev/shm') else None)
+    try:
+        real = script(tables.open_file, os.path.join(d, 'm.h5'), None)
+        stubs_io.reset()
+        fake = script(lambda f, m='r': stubs_io._Handle(f, m), 'modes.h5', None)
+        return real == fake, (real, fake)
+    finally:
+        import shutil
+        shutil.rmtree(d, ignore_errors=True)
+
+
 def rows_for(R, dtype, sym):
     rows = []
     for i in range(R):
@@ -72,7 +114,8 @@ def rows_for(R, dtype, sym):
     return rows
 
 
-def saveload_job(R, dtype='int64', stride=1, subset=None, rect=False):
+def saveload_job(R, dtype='int64', stride=1, subset=None, rect=False, prior=0):
+    """prior: number of rows of ANOTHER array saved to the same path before (a file is rewritten, not merged)"""
     def path(ctx):
         ra = loader.load('enspara.ra.ra')
         stubs_io.USE_FAKE[0] = True
@@ -83,6 +126,8 @@ def saveload_job(R, dtype='int64', stride=1, subset=None, rect=False):
         a = ra.RaggedArray([funcs.np_array(r, dtype=dtype) for r in rows])
         exc = None
         try:
+            if prior:
+                ra.save('mem.h5', ra.RaggedArray([funcs.np_array([7] * (1 + i % 3), dtype=dtype) for i in range(prior)]))
             ra.save('mem.h5', a)
             names = sorted(stubs_io.STORE['mem.h5'])
             keys = Ellipsis if subset is None else [names[i] for i in subset]
@@ -102,13 +147,16 @@ def saveload_job(R, dtype='int64', stride=1, subset=None, rect=False):
         def witness(model):
             """real PyTables round trip in a scratch file"""
             vals = [[(int(ev(model, c)) if dtype == 'int64' else float(ev(model, c))) for c in r] for r in rows]
-            out = {'inputs': {'rows': R, 'dtype': dtype, 'stride': stride, 'subset': subset, 'values': vals[:4]}, 'skip_compare': True}
+            out = {'inputs': {'rows': R, 'dtype': dtype, 'stride': stride, 'subset': subset, 'values': vals[:4],
+                              'rows saved to the same path before': prior}, 'skip_compare': True}
             d = tempfile.mkdtemp(prefix='c15_', dir='/dev/shm' if os.path.isdir('/dev/shm') else None)
             try:
                 with core.concrete_mode():
                     a2 = ra.RaggedArray([np.array(r, dtype=dtype) for r in vals])
                     fn = os.path.join(d, 'w.h5')
                     try:
+                        if prior:
+                            ra.save(fn, ra.RaggedArray([np.array([7] * (1 + i % 3), dtype=dtype) for i in range(prior)]))
                         ra.save(fn, a2)
                         import tables
                         with tables.open_file(fn) as h:
@@ -391,7 +439,10 @@ def striped_job(kind, lens, stride=1):
 def conformance_job():
     def path(ctx):
         ok, got = conformance_listing_order()
-        return PathOut([('real PyTables lists nodes sorted by name (stub conformance)', ok)], {}, None, desc='listing order %s' % got[:4])
+        ok2, got2 = conformance_open_modes()
+        return PathOut([('real PyTables lists nodes sorted by name (stub conformance)', ok),
+                        ('open modes w / a / r, node membership, duplicate creation and removal behave as in real PyTables (stub conformance)', ok2)],
+                       {}, None, desc='listing order %s; modes %s' % (got[:4], got2 if not ok2 else 'same'))
     return path
 
 
@@ -411,6 +462,11 @@ def jobs(tier):
             add('saveload_job', 'saveload[R=%d,subset]' % R, R=R, dtype='int64', subset=[R - 1, 0])
             add('saveload_job', 'saveload[R=%d,one key]' % R, R=R, dtype='int64', subset=[1 % R])
             add('saveload_job', 'saveload[R=%d,rectangular]' % R, R=R, dtype='int64', rect=True)
+    # a path that already holds an earlier save (more rows / another number of digits in the node names / fewer rows): the file is
+    # rewritten, the second array alone comes back
+    for R, prior in ((3, 6), (3, 12), (12, 3), (2, 2)) + (() if q else ((10, 11), (1, 100))):
+        add('saveload_job', 'saveload[R=%d,after a save of %d rows to the same path]' % (R, prior), R=R, dtype='int64', prior=prior)
+    add('saveload_job', 'saveload[R=3,stride=2,after a save of 6 rows to the same path]', R=3, dtype='int64', stride=2, prior=6)
     for s in range(1, 9 if q else 33):
         add('sound_job', 'sound_trajectory[stride=%d,unbounded]' % s, stride=s)
     for lens in (((2,), (1, 2), (3, 1), (2, 1, 3)) if q else ((2,), (1, 2), (3, 1), (2, 1, 3), (1, 1, 1), (4, 2), (1, 4, 2, 3), (5, 1, 1))):
